@@ -25,7 +25,7 @@ RULE = ("WCSs of 1..3 pixel axes mixing spectral / temporal / generic / celestia
 ASSUMPTIONS = ["wcslib (astropy.wcs) implements the -TAB index formula of Paper III — measured by the node-by-node comparison",
                "PARTIAL: between nodes only agreement within the linear-interpolation error of the sampled function is claimed (tested on "
                "linear / mildly curved axes)"]
-PINS = ["gwcs/wcs.py::WCS._to_fits_tab", "gwcs/wcs.py::WCS.to_fits_tab", "gwcs/wcs.py::WCS.to_fits", "gwcs/wcs.py::WCS._separable_groups",
+PINS = ["gwcs/coordinate_frames.py::_ucd1_to_ctype_name_mapping", "gwcs/coordinate_frames.py::get_ctype_from_ucd", "gwcs/wcs.py::WCS._to_fits_tab", "gwcs/wcs.py::WCS.to_fits_tab", "gwcs/wcs.py::WCS.to_fits", "gwcs/wcs.py::WCS._separable_groups",
         "gwcs/wcs.py::_fix_transform_inputs"]
 HEADER = ("From Coq Require Import ZArith QArith List Bool. Import ListNotations. Open Scope Z_scope.\nFrom GW Require Import C11.Tab.\n")
 D = 64
@@ -96,6 +96,62 @@ def build(rng, kind):
     return wcs.WCS([(det, tr), (cf.CompositeFrame([cel, spec], name="world"), None)]), 3, [2]
 
 
+def ctype_correspondence(ctx, rng, problems):
+    """_ucd1_to_ctype_name_mapping on astropy's own table and on random tables = Ctype.inv_map (vm_compute), the premises of
+    `ctype_maps_back` computed in Coq for the real tables, and the clause on the implementation: the name get_ctype_from_ucd gives
+    for a physical type is one astropy maps back to that physical type; unknown types get ''."""
+    import logging
+    from gwcs import coordinate_frames as cf
+    from astropy.wcs.wcsapi.fitswcs import CTYPE_TO_UCD1
+    ids = {}
+
+    def I(x):
+        return ids.setdefault(x, len(ids) + 1)
+
+    def gd(items):
+        return glist([f"({gz(I(k))}, {gz(I(v))})" for k, v in items])
+    logging.disable(logging.WARNING)
+    try:
+        real = cf._ucd1_to_ctype_name_mapping(CTYPE_TO_UCD1, cf._ALLOWED_UCD_DUPLICATES)
+        terms = [f"({gd(CTYPE_TO_UCD1.items())}, {gd(cf._ALLOWED_UCD_DUPLICATES.items())}, {gd(real.items())})"]
+        meta = [{"table": "astropy CTYPE_TO_UCD1", "entries": len(CTYPE_TO_UCD1), "allowed": dict(cf._ALLOWED_UCD_DUPLICATES)}]
+        ctx.case(key="ctype-real", nontrivial=True, kind="ctype-table/astropy", sample={"entries": len(CTYPE_TO_UCD1), "inverted": len(real)})
+        if dict(cf.UCD1_TO_CTYPE) != dict(real):
+            problems.append(("UCD1_TO_CTYPE is not the inversion of astropy's CTYPE_TO_UCD1 with the allowed duplicates", {}, None))
+        for ci in range(60 if ctx.quick else 1500):
+            nk, nu = rng.randint(0, 9), rng.randint(1, 5)
+            t = {f"K{i}": f"u{rng.randrange(nu)}" for i in rng.sample(range(12), nk)}
+            a = {}
+            for uu in rng.sample(range(nu + 1), rng.randint(0, 2)):
+                cands = [k for k, v in t.items() if v == f"u{uu}"]
+                a[f"u{uu}"] = rng.choice(cands) if cands and rng.random() < 0.8 else f"K{rng.randrange(14)}"
+            got = cf._ucd1_to_ctype_name_mapping(dict(t), dict(a))
+            terms.append(f"({gd(t.items())}, {gd(a.items())}, {gd(got.items())})")
+            meta.append({"table": t, "allowed": a, "got": got})
+            ctx.case(key=("ctype", tuple(t.items()), tuple(a.items())), nontrivial=len(set(t.values())) < len(t) or bool(a),
+                     kind="ctype-table/random", sample={"table": t, "allowed": a, "inverted": got})
+    finally:
+        logging.disable(logging.NOTSET)
+    hdr = "From Coq Require Import ZArith List Bool. Import ListNotations. Open Scope Z_scope.\nFrom GW Require Import C11.Ctype.\n"
+    fc = ctx.coq_failing("ctype", hdr, terms, "check_inv")
+    ctx.oblige("correspondence: Ctype.inv_map (vm_compute) = _ucd1_to_ctype_name_mapping on astropy's table and on random tables, entry by entry in order",
+               fc == [], "" if fc == [] else str([meta[i] for i in (fc or [])[:3]]))
+    fp = ctx.coq_failing("ctype_prem", hdr, terms[:1], "(fun c => match c with (t, a, _) => keys_unique t && allowed_consistent t a end)")
+    ctx.oblige("premises of ctype_maps_back computed in Coq for astropy's CTYPE_TO_UCD1 and gwcs's allowed duplicates (keys unique, side table consistent)",
+               fp == [], "" if fp == [] else "the allowed-duplicates table names a CTYPE that astropy does not map to that physical type")
+    # the clause on the implementation, for every physical type astropy knows and for unknown ones
+    for ucd in sorted(set(CTYPE_TO_UCD1.values())):
+        ct = cf.get_ctype_from_ucd(ucd)
+        ctx.case(key=("ctype-back", ucd), nontrivial=True, kind="ctype-maps-back")
+        if CTYPE_TO_UCD1.get(ct) != ucd:
+            problems.append((f"get_ctype_from_ucd({ucd!r}) = {ct!r}, which astropy maps to {CTYPE_TO_UCD1.get(ct)!r}, not back to {ucd!r}",
+                             {"physical_type": ucd, "how": "gwcs.coordinate_frames.get_ctype_from_ucd"}, None))
+    for ucd in ("custom:a", "no.such.type", ""):
+        if cf.get_ctype_from_ucd(ucd) != "":
+            problems.append((f"get_ctype_from_ucd({ucd!r}) = {cf.get_ctype_from_ucd(ucd)!r} for a physical type astropy does not list", {"physical_type": ucd}, None))
+    return fc, meta
+
+
 def run(ctx):
     from astropy import wcs as awcs
     from astropy.io import fits
@@ -103,6 +159,8 @@ def run(ctx):
     ctx.gate()
     ctx.coq_theorems("C11/Tab", ["node_exact", "table_spans_box", "index_affine", "degenerate_cdelt", "naxis_covers", "npix_ge_2"])
     ctx.coq_theorems("C11/TabAxes", ["pc_row_selects_axis", "diagonal_left_in_place_refuted"])
+    ctx.coq_theorems("C11/Ctype", ["inv_total", "ctype_maps_back", "unknown_type_gets_empty_name", "ctype_is_designated_or_first",
+                                   "one_name_per_type", "ex_table", "ex_premises"])
     pins.check(ctx, PINS)
     rng = ctx.rng
     problems, terms, meta = [], [], []
@@ -152,6 +210,17 @@ def run(ctx):
         if via_to_fits and sorted(v for v in vers if v is not None) != list(range(1, len(hdus) + 1)):
             problems.append((f"{kind}: the {len(hdus)} table extensions carry versions {vers}, not 1..{len(hdus)}", {"kind": kind, "box": bb}, None))
         for k_ in [int(k[5:]) for k in hdr if k.startswith("CTYPE") and k[5:].isdigit() and str(hdr[k]).endswith("-TAB")]:
+            # the axis name is the CTYPE of the declared physical type (astropy's own table maps it back), '' for types astropy does not list
+            from astropy.wcs.wcsapi.fitswcs import CTYPE_TO_UCD1
+            pt = w.world_axis_physical_types[k_ - 1] if k_ - 1 < len(w.world_axis_physical_types) else None
+            name = str(hdr[f"CTYPE{k_}"])[:4].rstrip("-")
+            if pt in set(CTYPE_TO_UCD1.values()):
+                if CTYPE_TO_UCD1.get(name) != pt:
+                    problems.append((f"{kind}: CTYPE{k_} = {hdr[f'CTYPE{k_}']!r} for a world axis of physical type {pt!r} (astropy maps {name!r} to "
+                                     f"{CTYPE_TO_UCD1.get(name)!r})", {"kind": kind, "box": bb}, None))
+            elif name != "":
+                problems.append((f"{kind}: CTYPE{k_} = {hdr[f'CTYPE{k_}']!r} for a world axis of physical type {pt!r}, which astropy does not list",
+                                 {"kind": kind, "box": bb}, None))
             pv1 = hdr.get(f"PV{k_}_1")
             if via_to_fits and (pv1 is None or int(pv1) not in [v for v in vers if v is not None]):
                 problems.append((f"{kind}: PV{k_}_1 = {pv1} names no table extension (versions {vers})", {"kind": kind, "box": bb}, None))
@@ -250,6 +319,7 @@ def run(ctx):
             else:
                 continue
             break
+    fctype, meta_ctype = ctype_correspondence(ctx, rng, problems)
     # rejections
     import astropy.units as u
     w, n, _ = build(rng, "spec-time")
@@ -284,6 +354,10 @@ def run(ctx):
             continue
         seen.add(kk)
         ctx.violation("C11 fails on the implementation: " + what, rep, key=key)
+    if fctype and not problems:
+        ctx.violation("correspondence Ctype.inv_map = _ucd1_to_ctype_name_mapping no longer checks (theorems ctype_maps_back, one_name_per_type are about "
+                      "the old inversion); every physical type astropy lists still gets a CTYPE that maps back to it on the implementation",
+                      {"correspondence": "C11/Ctype.check_inv", "first": str(meta_ctype[fctype[0]])[:400]}, found_input=False)
     if fail and not problems:
         ctx.violation("model and exported header disagree; the reader-based oracle found no violated clause", {"first": [str(meta[i]) for i in fail[:3]]},
                       found_input=False)
